@@ -580,6 +580,23 @@ def hand_cases():
       "@update", "def up_loop():", "  for i in range(2):", "    s.out[i] @= s.in_"], None)
   add("unshadowed-loop-variable:second-writer-of-element-1", ["s.in_ = InPort( Bits8 )", "s.out = [ OutPort( Bits8 ) for _ in range(2) ]",
       "@update", "def up_loop():", "  for jj in range(2):", "    s.out[jj] @= s.in_", "@update", "def up_one():", "  s.out[1] @= 0"], "MultiWriterError")
+  # signals written through a local name of the block (plain assignment, zip, nested loops, if / else)
+  P2 = ["s.in_ = InPort( Bits8 )", "s.out = OutPort( Bits8 )", "s.outs = [ OutPort( Bits8 ) for _ in range(2) ]", "s.ins = [ InPort( Bits8 ) for _ in range(2) ]",
+        "s.g = [ [ Wire( Bits8 ) for _ in range(2) ] for _ in range(2) ]"]
+  alias_forms = {
+    "assign":      (["  x = s.out", "  x @= s.in_", "  for i in range(2):", "    s.outs[i] @= 0", "    for j in range(2):", "      s.g[i][j] @= 0"], "s.out"),
+    "zip":         (["  for i_, o_ in zip( s.ins, s.outs ):", "    o_ @= i_", "  s.out @= 0", "  for i in range(2):", "    for j in range(2):", "      s.g[i][j] @= 0"], "s.outs[1]"),
+    "nested-loop": (["  for row in s.g:", "    for w in row:", "      w @= s.in_", "  s.out @= 0", "  for i in range(2):", "    s.outs[i] @= 0"], "s.g[1][0]"),
+    "branch":      (["  if s.in_[0]:", "    x = s.outs[0]", "    y = s.outs[1]", "  else:", "    x = s.outs[1]", "    y = s.outs[0]", "  x @= s.in_", "  y @= 0", "  s.out @= 0",
+                     "  for i in range(2):", "    for j in range(2):", "      s.g[i][j] @= 0"], "s.outs[0]"),
+    "tuple":       (["  x, y = s.out, s.outs[0]", "  x @= s.in_", "  y @= 0", "  s.outs[1] @= 0", "  for i in range(2):", "    for j in range(2):", "      s.g[i][j] @= 0"], "s.outs[0]"),
+  }
+  for form, (body, victim) in alias_forms.items():
+    add(f"local-alias:{form}:single-writer", P2 + ["@update", "def up_al():"] + body, None)
+    add(f"local-alias:{form}:second-writer", P2 + ["@update", "def up_al():"] + body + ["@update", "def up_two():", f"  {victim} @= 1"], "MultiWriterError")
+  add("local-alias:assign:wrong-operator:update", ["s.in_ = InPort( Bits8 )", "s.out = OutPort( Bits8 )", "@update", "def up_al():", "  x = s.out", "  x <<= s.in_"], "UpdateBlockWriteError")
+  add("local-alias:assign:wrong-operator:update_ff", ["s.in_ = InPort( Bits8 )", "s.out = OutPort( Bits8 )", "@update_ff", "def up_al():", "  x = s.out", "  x @= s.in_"], "UpdateFFBlockWriteError")
+  add("local-alias:loop:wrong-operator:update", ["s.in_ = InPort( Bits8 )", "s.outs = [ OutPort( Bits8 ) for _ in range(2) ]", "@update", "def up_al():", "  for o_ in s.outs:", "    o_ <<= s.in_"], "UpdateBlockWriteError")
   # index expressions: provably disjoint writes from two blocks
   add("index-expression:N-1", ["s.in_ = InPort( Bits8 )", "s.out = [ OutPort( Bits8 ) for _ in range(2) ]", "N = 2",
       "@update", "def up_a():", "  s.out[0] @= s.in_", "@update", "def up_b():", "  s.out[N-1] @= 0"], None)
